@@ -99,6 +99,7 @@ inductive Err
   | short      -- window > len(x)
   | unsorted   -- "expected x to be a sorted array with unique values"
   | below | above
+  | solver     -- (spline model only) the elimination did not return moments satisfying the defining equations
   deriving DecidableEq, Repr
 
 /-- insert a sample into a list sorted by abscissa (before the first larger abscissa) -/
@@ -307,10 +308,17 @@ def nakAt (xs ys ms : List Rat) (x : Rat) : Rat :=
   pieceEval (xs.getD (idx - 1) 0) (xs.getD idx 0) (ys.getD (idx - 1) 0) (ys.getD idx 0)
     (ms.getD (idx - 1) 0) (ms.getD idx 0) x
 
-/-- `interpolate(x, y, x_new, kind="cubic")` / `kind="interpolated_univariate_spline"` inside the sample range:
-the result, and whether every component's moments satisfy `NakEqs` (the certificate the driver reports) -/
+/-- moments of one component: the result of the elimination, accepted only when it satisfies the defining
+equations (a decidable check, so every value the model returns is a value of *the* not-a-knot spline) -/
+def nakMoments (sx col : List Rat) : Option (List Rat) :=
+  match gaussSolve sx.length (nakSystem sx col) with
+  | none => none
+  | some ms =>
+    if NakEqs sx.length (fun i => sx.getD i 0) (fun i => col.getD i 0) (fun i => ms.getD i 0) then some ms else none
+
+/-- `interpolate(x, y, x_new, kind="cubic")` / `kind="interpolated_univariate_spline"` inside the sample range -/
 def nakSpline (xs : List Rat) (rows : List (List Rat)) (dim : Nat) (xnew : List Rat) :
-    Except Err (Bool × List (List Rat)) :=
+    Except Err (List (List Rat)) :=
   if rows.length != xs.length then .error .shape
   else if xs.length < 4 then .error .short
   else
@@ -322,10 +330,8 @@ def nakSpline (xs : List Rat) (rows : List (List Rat)) (dim : Nat) (xnew : List 
     else if maxL xnew > maxL sx then .error .above
     else
       let cols := (List.range dim).map (fun c => sy.map (·.getD c 0))
-      let sols := cols.map (fun col => (col, (gaussSolve sx.length (nakSystem sx col)).getD []))
-      let ok := sols.all (fun (col, ms) => ms.length == sx.length &&
-        decide (NakEqs sx.length (fun i => sx.getD i 0) (fun i => col.getD i 0) (fun i => ms.getD i 0)))
-      .ok (ok, xnew.map (fun x => sols.map (fun (col, ms) => nakAt sx col ms x)))
+      if cols.any (fun col => (nakMoments sx col).isNone) then .error .solver
+      else .ok (xnew.map (fun x => cols.map (fun col => nakAt sx col ((nakMoments sx col).getD []) x)))
 
 /-! ## `midgard.math.nputil`: `norm`, `unit_vector`, `take` along the last axis -/
 
@@ -475,6 +481,29 @@ def ols (xs ys : List Rat) : Option Fit :=
 /-- `result.resid` (observed − modelled) -/
 def resid (f : Fit) (xs ys : List Rat) : List Rat :=
   List.zipWith (fun x y => y - (f.icpt + f.slope * x)) xs ys
+
+/-- the statistics `LinearRegression` reports for the fit `f` of the samples kept, as squares where the code takes
+a square root: `rms²` = Σe²/n, `r_square` = 1 − Σe²/Σ(y−ȳ)² (statsmodels `rsquared`, centred), `slope_sigma²` and
+`interception_sigma²` = the diagonal of `scale · (XᵀX)⁻¹` with `scale` = Σe²/(n−2) (statsmodels `bse`²) -/
+structure FitStats where
+  rms2 : Rat
+  rSquare : Rat
+  slopeVar : Rat
+  icptVar : Rat
+  deriving DecidableEq, Repr
+
+/-- residual sum of squares of the line `f` -/
+def ssr (f : Fit) (xs ys : List Rat) : Rat := normSq (resid f xs ys)
+
+/-- centred total sum of squares Σ(y−ȳ)² -/
+def sst (ys : List Rat) : Rat := normSq (ys.map (· - mean ys))
+
+def fitStats (f : Fit) (xs ys : List Rat) : FitStats :=
+  let n : Rat := (xs.length : Rat)
+  let e2 := ssr f xs ys
+  let den := n * (xs.map (fun x => x * x)).sum - xs.sum * xs.sum
+  let scale := e2 / (n - 2)
+  ⟨e2 / n, 1 - e2 / sst ys, scale * n / den, scale * (xs.map (fun x => x * x)).sum / den⟩
 
 /-- one pass of `_generate_result_and_reject_outlier`: keep the samples with
 `|resid| < factor · rms`, i.e. `resid² · n < factor² · Σ resid²` (`factor ≥ 0`) -/
